@@ -20,7 +20,8 @@ EXPLANATION = ("Static agreement analysis between btor2::serialize and btor2::pa
                "the state line and its init line after it, next lines after all state declarations; constant-array inits are unwrapped exactly where the reader re-wraps them; the auto-generated-name filter is anchored.")
 ASSUMPTIONS = ["equivalence beyond positional identity (e.g. of renamed labels) is not decided", "for_each_child order is the writer's child order (T1)"]
 LEVEL_TEXT = ("Exhaustive table composition writer∘reader = identity over all writable variants (not just those occurring in the shipped btor2 files), plus ordering rules on the emission sequence: decides "
-              "operator spelling, operand/attribute positions and definition order structurally. Name stability is decided only for the anchoring of the auto-generated-name filter.")
+              "operator spelling, operand/attribute positions and definition order structurally. Name stability is decided only for the anchoring of the auto-generated-name filter."
+              " No io::Result of the writer is turned into an Option or a default (a failed step would make the writer accept the system and leave something out).")
 LEVEL_NOTE = "Composition uses the checked builder contract (T2) and the reader table of C08; string-level alias bookkeeping is not decided."
 TECHNIQUE = "format-string recovery + table composition (writer row ∘ reader row ∘ builder contract = identity); evaluation-order rules; for-every-element (path-condition) rule per line kind"
 
